@@ -1752,7 +1752,7 @@ const WORDS: [i32; 30] = [
 ];
 const HALVES: [u16; 10] = [0, 1, 0x3fff, 0x4000, 0x4001, 0x40ff, 0x7fff, 0x8000, 0xfffe, 0xffff];
 
-fn word() -> BoxedStrategy<i32> {
+pub(crate) fn word() -> BoxedStrategy<i32> {
     prop_oneof![
         4 => -3i32..=6,
         3 => proptest::sample::select(&WORDS[..]),
@@ -1878,7 +1878,7 @@ fn mutation_strategy(groups: u8) -> BoxedStrategy<Mutation> {
     .boxed()
 }
 
-fn muts_strategy(groups: u8) -> BoxedStrategy<Vec<Mutation>> {
+pub(crate) fn muts_strategy(groups: u8) -> BoxedStrategy<Vec<Mutation>> {
     prop_oneof![
         1 => Just(Vec::new()),
         5 => proptest::collection::vec(mutation_strategy(groups), 1..=1),
@@ -1887,7 +1887,7 @@ fn muts_strategy(groups: u8) -> BoxedStrategy<Vec<Mutation>> {
     .boxed()
 }
 
-fn byte_muts_strategy() -> BoxedStrategy<Vec<ByteMut>> {
+pub(crate) fn byte_muts_strategy() -> BoxedStrategy<Vec<ByteMut>> {
     let m = prop_oneof![
         3 => any::<u16>().prop_map(|at| ByteMut::Truncate { at }),
         3 => (any::<u16>(), prop_oneof![any::<u8>(), proptest::sample::select(&[0u8, 0x80, 0xff, 0x40, 0x7f, 0xc0][..])])
@@ -1918,7 +1918,7 @@ fn keysel_strategy() -> BoxedStrategy<KeySel> {
     .boxed()
 }
 
-fn delta_spec_strategy(max: usize) -> BoxedStrategy<DeltaSpec> {
+pub(crate) fn delta_spec_strategy(max: usize) -> BoxedStrategy<DeltaSpec> {
     let upd = (keysel_strategy(), data_strategy(), proptest::bool::weighted(0.7))
         .prop_map(|(key, data, match_len)| Upd { key, data, match_len });
     let off = || prop_oneof![8 => Just(0i32), 1 => -2i32..=2, 1 => word()];
@@ -1933,7 +1933,7 @@ fn delta_spec_strategy(max: usize) -> BoxedStrategy<DeltaSpec> {
         .boxed()
 }
 
-fn table_strategy() -> BoxedStrategy<Table> {
+pub(crate) fn table_strategy() -> BoxedStrategy<Table> {
     prop_oneof![4 => Just(Table::None), 4 => Just(Table::V06), 1 => Just(Table::Huge)].boxed()
 }
 
@@ -2446,6 +2446,8 @@ pub fn run(ctx: &Ctx) {
         },
         |c: &RandomBytes| check_random_bytes(&k, c),
     );
+
+    crate::c11_manager::run(ctx, &k);
 
     ctx.add_excluded_known(EXCLUDED.swap(0, Ordering::Relaxed));
     let mut hit = serde_json::Map::new();
